@@ -26,6 +26,24 @@ theorem lookup_setKey_self {α} (k : String) (v : α) (l : List (String × α)) 
 theorem lookup_setKey_ne {α} {k k' : String} (h : k ≠ k') (v : α) (l : List (String × α)) :
     lookup k (setKey k' v l) = lookup k l := by simp [lookup_setKey, h]
 
+theorem mem_setKey_ne {α} (k : String) (v : α) (kv : String × α) (hne : kv.1 ≠ k) : ∀ (l : List (String × α)),
+    kv ∈ setKey k v l ↔ kv ∈ l
+  | [] => by
+      simp only [setKey, List.mem_singleton, List.not_mem_nil, iff_false]
+      intro e; subst e; exact hne rfl
+  | (k', v') :: tl => by
+      by_cases h : k = k'
+      · subst h
+        simp only [setKey, if_true, List.mem_cons]
+        constructor
+        · rintro (e | e)
+          · subst e; exact absurd rfl hne
+          · exact Or.inr e
+        · rintro (e | e)
+          · subst e; exact absurd rfl hne
+          · exact Or.inr e
+      · simp only [setKey, h, if_false, List.mem_cons, mem_setKey_ne k v kv hne tl]
+
 theorem mem_eraseKey {α} (k : String) (kv : String × α) (l : List (String × α)) :
     kv ∈ eraseKey k l ↔ kv ∈ l ∧ kv.1 ≠ k := by
   induction l with
